@@ -156,4 +156,121 @@ theorem unqPiece_plain (c : Char) (h : c ≠ '\\') : UnqPiece [c] [c] := by
 theorem unqStr_drop1 (ws : Bool) (c : Char) (cs : List Char) : unqStr 1 ws (c :: cs) = unqStr 0 ws cs := by
   simp [unqStr]
 
+/-! ### the numeric escapes `\\xNN`, `\\uNNNN`, `\\UNNNNNNNN` -/
+
+theorem checkProhibited_none (c : Char) (e : Bool) (h0 : c.toNat ≠ 0) (hb : isBidi c = false) :
+    checkProhibited c e = none := by
+  simp [checkProhibited, h0, hb]
+
+theorem flatMap_single (s : List Char) : s.flatMap (fun c => [c]) = s := by
+  induction s with
+  | nil => rfl
+  | cons c cs ih => simp [List.flatMap_cons, ih]
+
+/-! ### hex digits inside a string body -/
+
+theorem hexDigit_body : ∀ k : Fin 16,
+    hexDigit k.val ≠ '\\' ∧ hexDigit k.val ≠ '\'' ∧ hexDigit k.val ≠ '"' ∧
+    checkProhibited (hexDigit k.val) true = none := by decide
+
+theorem scanOK_hex (q : Char) (hq : q = '\'' ∨ q = '"') (k : Nat) (hk : k < 16) (l : List Char)
+    (hl : l ≠ []) : scanOK q (hexDigit k :: l) = scanOK q l := by
+  obtain ⟨h1, h2, h3, h4⟩ := hexDigit_body ⟨k, hk⟩
+  have hne : hexDigit k ≠ q := by rcases hq with rfl | rfl <;> assumption
+  cases l with
+  | nil => exact absurd rfl hl
+  | cons d ds => simp [scanOK, h1, hne, h4]
+
+theorem scanOK_hex1 (q : Char) (hq : q = '\'' ∨ q = '"') (k : Nat) (hk : k < 16) :
+    scanOK q [hexDigit k] = true := by
+  obtain ⟨h1, h2, h3, h4⟩ := hexDigit_body ⟨k, hk⟩
+  have hne : hexDigit k ≠ q := by rcases hq with rfl | rfl <;> assumption
+  simp [scanOK, h1, hne, h4]
+
+/-! ### the escapes `repr` emits -/
+
+theorem strEscape_x (n : Nat) (hn : n < 128) (h0 : n ≠ 0) (tl : List Char) :
+    strEscape ('x' :: (hex2 n ++ tl)) = .ok ([Char.ofNat n], 3, false) := by
+  have := parseHex_hex2 n (by omega)
+  simp only [hex2] at this
+  simp only [strEscape, hex2, List.cons_append, List.nil_append, this]
+  have : ¬ (n > 127 ∨ n = 0) := by omega
+  simp [this]
+
+theorem charValid (c : Char) : c.toNat < 0xd800 ∨ (0xdfff < c.toNat ∧ c.toNat < 0x110000) := by
+  have := c.valid
+  simp only [UInt32.isValidChar, Nat.isValidChar] at this
+  exact this
+
+theorem escChar?_toNat (c : Char) (h0 : c.toNat ≠ 0) : escChar? c.toNat = some c := by
+  have := charValid c
+  simp [escChar?, h0, this, Char.ofNat_toNat]
+
+theorem strEscape_u (c : Char) (hn : c.toNat < 65536) (h0 : c.toNat ≠ 0) (tl : List Char) :
+    strEscape ('u' :: (hex4 c.toNat ++ tl)) = .ok ([c], 5, false) := by
+  have := parseHex_hex4 c.toNat hn
+  simp only [hex4] at this
+  simp only [strEscape, hex4, List.cons_append, List.nil_append, this]
+  simp [escChar?_toNat c h0]
+
+theorem strEscape_U (c : Char) (h0 : c.toNat ≠ 0) (tl : List Char) :
+    strEscape ('U' :: (hex8 c.toNat ++ tl)) = .ok ([c], 9, false) := by
+  have hlt : c.toNat < 4294967296 := by have := charValid c; omega
+  have := parseHex_hex8 c.toNat hlt
+  simp only [hex8, hex4, List.cons_append, List.nil_append] at this
+  simp only [strEscape, hex8, hex4, List.cons_append, List.nil_append, this]
+  simp [escChar?_toNat c h0]
+
+theorem unqPiece_x (c : Char) (hn : c.toNat < 128) (h0 : c.toNat ≠ 0) :
+    UnqPiece ('\\' :: 'x' :: hex2 c.toNat) [c] := by
+  intro tl
+  have h := strEscape_x c.toNat hn h0 tl
+  simp only [List.cons_append, unqStr, Bool.false_and, Bool.false_eq_true, if_false, if_true, h]
+  simp only [hex2, List.cons_append, List.nil_append, unqStr, Char.ofNat_toNat]
+  cases unqStr 0 false tl <;> rfl
+
+theorem unqPiece_u (c : Char) (hn : c.toNat < 65536) (h0 : c.toNat ≠ 0) :
+    UnqPiece ('\\' :: 'u' :: hex4 c.toNat) [c] := by
+  intro tl
+  have h := strEscape_u c hn h0 tl
+  simp only [List.cons_append, unqStr, Bool.false_and, Bool.false_eq_true, if_false, if_true, h]
+  simp only [hex4, List.cons_append, List.nil_append, unqStr]
+  cases unqStr 0 false tl <;> rfl
+
+theorem unqPiece_U (c : Char) (h0 : c.toNat ≠ 0) :
+    UnqPiece ('\\' :: 'U' :: hex8 c.toNat) [c] := by
+  intro tl
+  have h := strEscape_U c h0 tl
+  simp only [List.cons_append, unqStr, Bool.false_and, Bool.false_eq_true, if_false, if_true, h]
+  simp only [hex8, hex4, List.cons_append, List.nil_append, unqStr]
+  cases unqStr 0 false tl <;> rfl
+
+theorem scanOK_bs (q d : Char) (hd : d ≠ '(') (l : List Char) :
+    scanOK q ('\\' :: d :: l) = scanOK q l := by
+  simp [scanOK, hd]
+
+theorem scanOK_hex4 (q : Char) (hq : q = '\'' ∨ q = '"') (n : Nat) (l : List Char) (hl : l ≠ []) :
+    scanOK q (hex4 n ++ l) = scanOK q l := by
+  simp only [hex4, List.cons_append, List.nil_append]
+  rw [scanOK_hex q hq _ (by omega) _ (by simp), scanOK_hex q hq _ (by omega) _ (by simp),
+    scanOK_hex q hq _ (by omega) _ (by simp), scanOK_hex q hq _ (by omega) _ hl]
+
+theorem scanOK_hex4' (q : Char) (hq : q = '\'' ∨ q = '"') (n : Nat) : scanOK q (hex4 n) = true := by
+  simp only [hex4]
+  rw [scanOK_hex q hq _ (by omega) _ (by simp), scanOK_hex q hq _ (by omega) _ (by simp),
+    scanOK_hex q hq _ (by omega) _ (by simp), scanOK_hex1 q hq _ (by omega)]
+
+theorem scanOK_x (q : Char) (hq : q = '\'' ∨ q = '"') (n : Nat) :
+    scanOK q ('\\' :: 'x' :: hex2 n) = true := by
+  rw [scanOK_bs q 'x' (by decide), hex2, scanOK_hex q hq _ (by omega) _ (by simp),
+    scanOK_hex1 q hq _ (by omega)]
+
+theorem scanOK_u (q : Char) (hq : q = '\'' ∨ q = '"') (n : Nat) :
+    scanOK q ('\\' :: 'u' :: hex4 n) = true := by
+  rw [scanOK_bs q 'u' (by decide), scanOK_hex4' q hq]
+
+theorem scanOK_U (q : Char) (hq : q = '\'' ∨ q = '"') (n : Nat) :
+    scanOK q ('\\' :: 'U' :: hex8 n) = true := by
+  rw [scanOK_bs q 'U' (by decide), hex8, scanOK_hex4 q hq _ _ (by simp [hex4]), scanOK_hex4' q hq]
+
 end EdbVerif.Lex
